@@ -19,7 +19,10 @@ impl Ty for Udp {
         v.header_len()
     }
     fn ser(v: &Self::V) -> Vec<(&'static str, Vec<u8>)> {
-        vec![("to_bytes", v.to_bytes().to_vec()), ("write", wr(|w| v.write(w).unwrap()))]
+        vec![("to_bytes", v.to_bytes().to_vec()), ("write", wr(|w| v.write(w).unwrap())), ("TransportHeader::Udp.write", wr(|w| TransportHeader::Udp(v.clone()).write(w).unwrap()))]
+    }
+    fn ser_special(v: &Self::V, r: &[u8]) -> Vec<(&'static str, Vec<u8>, Vec<u8>)> {
+        vec![("TransportHeader::Udp.header_len", (TransportHeader::Udp(v.clone()).header_len() as u64).to_be_bytes().to_vec(), (r.len() as u64).to_be_bytes().to_vec())]
     }
     fn dec0(b: &[u8]) -> Dec<Self::V> {
         sl(b, UdpHeader::from_slice(b))
@@ -74,7 +77,10 @@ impl Ty for TcpH {
         v.header_len()
     }
     fn ser(v: &Self::V) -> Vec<(&'static str, Vec<u8>)> {
-        vec![("to_bytes", v.to_bytes().to_vec()), ("write", wr(|w| v.write(w).unwrap()))]
+        vec![("to_bytes", v.to_bytes().to_vec()), ("write", wr(|w| v.write(w).unwrap())), ("TransportHeader::Tcp.write", wr(|w| TransportHeader::Tcp(v.clone()).write(w).unwrap()))]
+    }
+    fn ser_special(v: &Self::V, r: &[u8]) -> Vec<(&'static str, Vec<u8>, Vec<u8>)> {
+        vec![("TransportHeader::Tcp.header_len", (TransportHeader::Tcp(v.clone()).header_len() as u64).to_be_bytes().to_vec(), (r.len() as u64).to_be_bytes().to_vec())]
     }
     fn dec0(b: &[u8]) -> Dec<Self::V> {
         sl(b, TcpHeader::from_slice(b))
